@@ -35,13 +35,27 @@ def deref(i, pos=-2):
         ostr = "%+0d" % offset.value
     else:
         ostr = str(offset)
-    if hasattr(i, "wback"):
-        wb = "!" if i.wback else ""
-        if i.postindex:
-            loc = "[%s], %s" % (base, ostr)
-        else:
-            loc = "[%s, %s]%s" % (base, ostr, wb)
+    wb = "!" if i.wback else ""
+    if i.postindex:
+        loc = "[%s], %s" % (base, ostr)
+    else:
+        loc = "[%s, %s]%s" % (base, ostr, wb)
     return [(Token.Memory, loc)]
+
+
+def ld_st(i):
+    if hasattr(i, "excl"):
+        # exclusive/ordered forms: (Ws,) Rt, (Rt2,) [Xn] have no offset
+        r = regs(i, -1)
+        m = [(Token.Memory, "[%s]" % i.operands[-1])]
+    elif not hasattr(i, "n"):
+        # literal forms: Rt, label
+        r = regs(i, -1)
+        m = label(i, -1)
+    else:
+        r = regs(i, -2)
+        m = deref(i, -2)
+    return TokenListJoin(", ", r + m)
 
 
 def label(i, pos=0):
@@ -302,8 +316,7 @@ def alias_SBC(i):
 condreg = lambda i: [(Token.Literal, "'%s'" % i.misc["cond"])]
 allregs = LambdaTokenListJoin(", ",regs)
 format_default = [mnemo, LambdaTokenListJoin(", ",regs)]
-format_ld_st = [mnemo, lambda i: TokenListJoin(", ",regs(i, -2) +
-                                                    deref(i, -2))]
+format_ld_st = [mnemo, ld_st]
 format_B = [mnemo, label]
 format_ADR = [mnemo, lambda i: TokenListJoin(", ", i.operands[0].toks() +
                                                    label_adr(i))]
